@@ -118,6 +118,12 @@ impl World for MpmcWorld {
                 }
             }
         }
+        // mode 1: capacity 12, and the history starts with 9 try_send calls (deep buffer states)
+        for flavour in [FL_LOCAL, FL_SYNC, FL_SHARED_CHECKED] {
+            for y in [BUF_ARRAY, BUF_FIXED, BUF_GROWING] {
+                v.push(Cfg { flavour, mode: 1, x: 12, y, k, sw: 0 });
+            }
+        }
         v
     }
     fn enum_configs(&self, tier: Tier) -> Vec<(Cfg, usize)> {
@@ -159,6 +165,16 @@ impl World for MpmcWorld {
         ]
     }
     fn run(&self, cfg: &Cfg, ops: &[Op], run: &mut Run) {
+        let mut ex: Vec<Op> = Vec::new();
+        let ops = if cfg.mode == 1 {
+            for _ in 0..cfg.x.saturating_sub(3) {
+                ex.push(Op { code: OP_TRY_SEND, a: 0, b: 0 });
+            }
+            ex.extend_from_slice(ops);
+            &ex[..]
+        } else {
+            ops
+        };
         macro_rules! with_lock {
             ($m:ty) => {
                 match (cfg.y, cfg.x) {
@@ -166,6 +182,7 @@ impl World for MpmcWorld {
                     (BUF_ARRAY, 1) => run_m::<$m, ArrayBuf<Tagged, [Tagged; 1]>>(cfg, ops, run),
                     (BUF_ARRAY, 2) => run_m::<$m, ArrayBuf<Tagged, [Tagged; 2]>>(cfg, ops, run),
                     (BUF_ARRAY, 3) => run_m::<$m, ArrayBuf<Tagged, [Tagged; 3]>>(cfg, ops, run),
+                    (BUF_ARRAY, 12) => run_m::<$m, ArrayBuf<Tagged, [Tagged; 12]>>(cfg, ops, run),
                     (BUF_ARRAY, _) => run_m::<$m, ArrayBuf<Tagged, [Tagged; 5]>>(cfg, ops, run),
                     (BUF_FIXED, _) => run_m::<$m, FixedHeapBuf<Tagged>>(cfg, ops, run),
                     _ => run_m::<$m, GrowingHeapBuf<Tagged>>(cfg, ops, run),
@@ -193,7 +210,7 @@ impl World for MpmcWorld {
     }
     fn cfg_desc(&self, cfg: &Cfg) -> String {
         format!(
-            "mpmc flavour={} buffer={} capacity={} send/recv slots={}",
+            "mpmc flavour={} buffer={} capacity={}{} send/recv slots={}",
             flavour_name(cfg.flavour),
             match cfg.y {
                 BUF_ARRAY => "ArrayBuf",
@@ -201,6 +218,7 @@ impl World for MpmcWorld {
                 _ => "GrowingHeapBuf",
             },
             cfg.x,
+            if cfg.mode == 1 { " (history starts with 9 try_send)" } else { "" },
             cfg.k
         )
     }
